@@ -259,6 +259,42 @@ impl Property for C13 {
             ctx.subspace("chains of <= 4 (thorough 5) positions from {sequence item, map value, struct field, newtype / struct / tuple variant payload, tuple item, Some} above 6 block-scalar strings x indent {2,3,4,8} x compact x wrap {80,8} (quick: the longest chains with one leaf per option set in rotation)", idx, ctx.tier.pick(false, true));
         }
 
+        // ---------------- values of every small shape behind a key longer than 1024 characters ----
+        // (YAML limits implicit keys to 1024 characters: such a key needs the explicit `? key`
+        // form, and the value behind it must still be laid out correctly)
+        {
+            let small = ds::small_trees(2);
+            let mut idx = 0u64;
+            for (ti, (vt, vv)) in small.iter().enumerate() {
+                if ti % ctx.tier.pick(5usize, 1usize) != 0 {
+                    continue;
+                }
+                for klen in [1024usize, 1025, 1400] {
+                    for place in 0..3 {
+                        for (oi, indent) in [2usize, 3, 4, 8].into_iter().enumerate() {
+                            for compact in [false, true] {
+                                idx += 1;
+                                if !ctx.mine(idx) || (ctx.tier.pick(true, false) && (ti + oi + place) % 2 == 1) {
+                                    continue;
+                                }
+                                let key = DV::Str("k".repeat(klen));
+                                let inner_t = Ty::Map(Box::new(Ty::Str), Box::new(vt.clone()));
+                                let inner_v = DV::Map(vec![(DV::Str("a".into()), vv.clone()), (key, vv.clone()), (DV::Str("z".into()), vv.clone())]);
+                                let (t, v) = match place {
+                                    0 => (inner_t, inner_v),
+                                    1 => (Ty::Seq(Box::new(inner_t)), DV::Seq(vec![inner_v.clone(), inner_v])),
+                                    _ => (Ty::Struct(vec![Ty::Int, inner_t], false), DV::Struct(vec![DV::Int(1), inner_v])),
+                                };
+                                let c = Case { ty: t, val: v, opts: SerOpts { indent, compact, ..SerOpts::default() } };
+                                ctx.case("long-key-values", &c, true);
+                            }
+                        }
+                    }
+                }
+            }
+            ctx.subspace("small trees (quick: every fifth) as values behind keys of 1024 / 1025 / 1400 characters x 3 placements x indent {2,3,4,8} x compact", idx, ctx.tier.pick(false, true));
+        }
+
         let strat = (ds::arb_typed(4), 0u32..(1 << 14)).prop_map(|((ty, val), ob)| Case { ty, val, opts: SerOpts::from_bits(ob) });
         ctx.run_strategy("random-trees", 1, ctx.tier.pick(150_000, 1_500_000), &strat, nontrivial);
         let strat = (ds::arb_typed(5),).prop_map(|((ty, val),)| Case { ty, val, opts: SerOpts::default() });
